@@ -1,13 +1,13 @@
 #!/bin/sh
-# usage: tools/benignprobe.sh <name> <perl -pi expression>
+# usage: tools/benignprobe.sh <name> <perl -pi expression> [<egrep pattern of files to leave alone>]
 # Applies a behaviour-preserving textual transformation to every library source of a scratch copy of /repo, makes sure
 # the library still builds, and runs every quick check against the copy.  Any exit 1 is a false alarm to investigate;
 # exit 2 (anchor renamed) is listed separately.
-NAME="$1"; EXPR="$2"
+NAME="$1"; EXPR="$2"; SKIP="${3:-^$}"
 S=$(mktemp -d /tmp/lcp_probe_XXXXXX)
 rsync -a --exclude .git --exclude '*.o' --exclude '*.a' --exclude tests-output /repo/ "$S/"
 cd "$S" || exit 3
-FILES=$(find alg aws crypto datastruct events http netbuf network util -name '*.[ch]' 2>/dev/null)
+FILES=$(find alg aws crypto datastruct events http netbuf network util -name '*.[ch]' 2>/dev/null | grep -Ev "$SKIP")
 perl -0pi -e "$EXPR" $FILES
 CH=$(diff -rq /repo "$S" 2>/dev/null | grep -c "^Files")
 ( cd "$S/liball" && make -j16 > "$S/build.log" 2>&1 ) || { echo "[$NAME] does not build: $(grep -m3 error "$S/build.log")"; rm -rf "$S"; exit 3; }
